@@ -859,4 +859,47 @@ theorem KW_run (s : State) (es : List Ev) (h : KW s) (a : InvA (abs s)) : KW (ru
   | nil => exact h
   | cons e es ih => exact ih _ (KW_step h a e) (invA_R a (step_R s e))
 
+/-! ### how results move the ranking -/
+
+theorem hardCheck_rank (s : State) (bn : Nat) (bp : Batch) (pr : Bool) (outs : List Out) :
+    (hardCheck s bn bp pr outs).1.rank = s.rank := by
+  unfold hardCheck
+  split
+  · rfl
+  · split <;> rfl
+
+theorem scoreOf_setScore_self (r : List (Nat × Nat)) (p v : Nat) : scoreOf (setScore r p v) p = v := by
+  simp only [scoreOf, setScore, List.lookup, beq_self_eq_true, Option.getD_some]
+
+theorem scoreOf_setScore_other (r : List (Nat × Nat)) (p q v : Nat) (h : q ≠ p) :
+    scoreOf (setScore r p v) q = scoreOf r q := by
+  have : (q == p) = false := by simp only [beq_eq_false_iff_ne, ne_eq]; exact h
+  simp only [scoreOf, setScore, List.lookup, this]
+  rw [lookup_filter_ne _ _ _ h]
+
+/-- what a result does to the ranking, by result kind (the batch being live) -/
+theorem rank_after_result (s : State) (p : Nat) (e : Err) (w : Worker) (job : Job) (bp : Batch)
+    (hw : findW s.workers p = some w) (ha : w.active = some job)
+    (hf : findB s.batches ((s.queries.lookup job.idx).getD 0) = some bp) :
+    (stepResult s p e).1.rank =
+      (match e with
+       | .ok => reward s.rank p
+       | .canceled => s.rank
+       | .disconnected => resetRank s.rank p
+       | _ => punish s.rank p) := by
+  unfold stepResult
+  simp only [hw, ha, hf]
+  cases e
+  · dsimp only
+    split
+    · rfl
+    · rw [hardCheck_rank]
+  all_goals first
+    | rfl
+    | (dsimp only
+       generalize (if bp.noRetryMax = true then job.tries else job.tries + 1) = tr
+       split
+       · rfl
+       · rw [hardCheck_rank]; rfl)
+
 end Neutrino.Disp
